@@ -48,6 +48,14 @@ func AddSegStatsNums(segstats map[string]*SegStats, cname string,
 	inNumType SS_IntUintFloatTypes, intVal int64, uintVal uint64,
 	fltVal float64, bb *bbp.ByteBuffer, aggColUsage map[string]AggColUsageMode, hasValuesFunc bool, hasListFunc bool, hasPercFunc bool) {
 
+	addSegStatsNumsWithHllKey(segstats, cname, inNumType, intVal, uintVal, fltVal, nil, aggColUsage, hasValuesFunc, hasListFunc, hasPercFunc)
+}
+
+// hllKey is what identifies the value in the distinct-count sketch; nil means the 8 bytes of the number itself.
+func addSegStatsNumsWithHllKey(segstats map[string]*SegStats, cname string,
+	inNumType SS_IntUintFloatTypes, intVal int64, uintVal uint64,
+	fltVal float64, hllKey []byte, aggColUsage map[string]AggColUsageMode, hasValuesFunc bool, hasListFunc bool, hasPercFunc bool) {
+
 	var stats *SegStats
 	var ok bool
 	stats, ok = segstats[cname]
@@ -86,7 +94,10 @@ func AddSegStatsNums(segstats map[string]*SegStats, cname string,
 		log.Warnf("AddSegStatsNums: unsupported inNumType: %v", inNumType)
 		return
 	}
-	stats.InsertIntoHll(bytes[:])
+	if hllKey == nil {
+		hllKey = bytes[:]
+	}
+	stats.InsertIntoHll(hllKey)
 	processStats(stats, inNumType, intVal, uintVal, fltVal, colUsage, hasValuesFunc, hasListFunc, hasPercFunc)
 }
 
@@ -377,7 +388,11 @@ func AddSegStatsStr(segstats map[string]*SegStats, cname string, strVal string,
 
 	floatVal, err := strconv.ParseFloat(strVal, 64)
 	if err == nil {
-		AddSegStatsNums(segstats, cname, SS_FLOAT64, 0, 0, floatVal, bb, aggColUsage, hasValuesFunc, hasListFunc, hasPercFunc)
+		// The distinct-count sketch identifies a string-typed number by its text, as the ingest-time stats
+		// (addSegStatsStrIngestion) and the group-by sketches do. Hashing the parsed float64 counted different
+		// strings with the same float64 image once ("4611686018427387981", "4611686018427387982") and counted
+		// one string twice when an ingest-time record was merged with a record built at query time.
+		addSegStatsNumsWithHllKey(segstats, cname, SS_FLOAT64, 0, 0, floatVal, []byte(strVal), aggColUsage, hasValuesFunc, hasListFunc, hasPercFunc)
 		return
 	}
 
